@@ -1,0 +1,8 @@
+//go:build verif
+
+package shiftdfa
+
+// VerifTables exposes the packed automaton to the verification harness (/verif).
+func (d *Scanner) VerifTables() (table [256]uint64, onEoi [11]uint8) {
+	return d.table, d.onEoi
+}
